@@ -4,6 +4,7 @@ import (
 	"fmt"
 	"go/constant"
 	"go/token"
+	"go/types"
 	"regexp"
 	"strings"
 
@@ -16,9 +17,9 @@ func init() {
 	register(&Prop{
 		ID: "C05",
 		Explanation: "Structural necessary conditions of 'lifetimes are bounded by max TTL; every stored lease is tracked': " +
-			"(1) framework.CalculateTTL: the effective maximum is selected among the mount maximum, the backend maximum and the explicit maximum only behind the 'positive and smaller' tests; a hard stop is always established — issue time + effective max in the non-periodic arm, issue time + explicit max in the periodic arm whenever an explicit max is set — before a TTL is returned, a request past the hard stop fails, and the TTL is capped to the remaining time; the issue time used is the caller's start time; both narrowing tests (backend maximum, explicit maximum) are evaluated on every path before the effective maximum is first used; " +
+			"(1) framework.CalculateTTL: the effective maximum is selected among the mount maximum, the backend maximum and the explicit maximum only behind the 'positive and smaller' tests; a hard stop is always established — issue time + effective max in the non-periodic arm, issue time + explicit max in the periodic arm whenever an explicit max is set — before a TTL is returned, a request past the hard stop fails, and the TTL is capped to the remaining time (both tests are evaluated in CalculateTTL or in the one function of its package, called directly, that they were extracted into — together with the linkage: the helper's error never reaches a success return, success with a hard stop crosses the call, its result 0 is returned; anywhere else they are reported as undecided); the issue time used is the caller's start time; both narrowing tests (backend maximum, explicit maximum) are evaluated on every path before the effective maximum is first used; " +
 			"(2) every TTL granted or extended by the server comes out of CalculateTTL, and the two renew functions pass the lease's original IssueTime; the expiry stored for a lease is derived from the response after the TTL was written; writers of leaseEntry.ExpireTime are tabled; " +
-			"(3) Renew/RenewToken reach the backend only across the nil-error edge of leaseEntry.renewable, whose nil-error returns lie behind the nil / irrevocable / zero-expiry / expired refusals (the non-renewable refusal is bypassed for leases under batch tokens: known finding A3); " +
+			"(3) Renew/RenewToken reach the backend only across the nil-error edge of leaseEntry.renewable (called directly or through its method value), whose nil-error returns lie behind the nil / irrevocable / zero-expiry / expired refusals (the non-renewable refusal is bypassed for leases under batch tokens: known finding A3); " +
 			"(4) persisted ⇒ tracked: every success edge of persistEntry is followed by updatePending (tabled exceptions), and updatePendingInternal files a lease in exactly one of the pending / non-expiring / irrevocable sets; " +
 			"(5) restore walks every stored lease of every namespace and tracks it; (6) failed revocations are retried a bounded number of times and then marked irrevocable; " +
 			"(7) the mount maximum handed to CalculateTTL is fetchTTLs' second result, which is the mount's tuned max_lease_ttl whenever that is non-zero (and only then); " +
@@ -127,31 +128,9 @@ func runC05(c *eng.Ctx, thorough bool) {
 		} else {
 			c.OK(f, "non-periodic: hard stop = issue time + effective max", f.Pos(), "every success path with period <= 0 passes startTime.Add(maxTTL)")
 		}
-		// past the hard stop => error; cap to the remainder
-		c.Clause("R4", "C05.1")
-		past := eng.CondEdges(f, `^0 < time\.\(Time\)\.Sub\(\)$`, false)
-		if len(past) == 0 {
-			c.Violation(f, "past the hard stop", f.Pos(), "CalculateTTL no longer tests whether the hard stop has passed", nil)
-		} else if h := eng.Reach(eng.Query{Fn: f, StartEdges: past, Target: eng.IsTarget(succ)}); h != nil {
-			c.Violation(f, "past the hard stop", h.Instr.Pos(), "a TTL can still be granted although the hard stop has passed", h.Witness)
-		} else {
-			c.OK(f, "past the hard stop", past[0].From.Instrs[len(past[0].From.Instrs)-1].Pos(), "maxValidTTL <= 0 returns an error")
-		}
-		c.Clause("R2", "C05.1")
-		capped := eng.PhiEdges(f, "ttl", func(v ssa.Value) bool { return strings.Contains(eng.Expr(v), "time.(Time).Sub()") })
-		if len(capped) == 0 {
-			c.Violation(f, "cap to the remaining time", f.Pos(), "the TTL is no longer capped to the time remaining until the hard stop", nil)
-		} else {
-			c.CutEdges(f, "ttl = maxValidTTL", capped, eng.G(f, `time\.\(Time\)\.Sub\(\) - .* < 0$`, true))
-			// when a hard stop exists, success needs the comparison to have been made
-			cmp := eng.EdgeIfs(eng.CondEdges(f, `time\.\(Time\)\.Sub\(\) - .* < 0$`, true))
-			zero := eng.CondEdges(f, `^time\.\(Time\)\.IsZero\(\)$`, true)
-			if h := eng.Reach(eng.Query{Fn: f, Barriers: cmp, Blocked: zero, Target: eng.IsTarget(succ)}); h != nil {
-				c.Violation(f, "TTL compared with the remaining time whenever a hard stop exists", h.Instr.Pos(), "success without comparing the TTL with the remaining time", h.Witness)
-			} else {
-				c.OK(f, "TTL compared with the remaining time whenever a hard stop exists", f.Pos(), "success crosses maxValidTime.IsZero() or the remaining-time comparison")
-			}
-		}
+		// past the hard stop => error; cap to the remainder (in CalculateTTL itself or in
+		// the one function of its package the tail was moved into)
+		c05HardStopTail(c, f, succ)
 		// period capped by the effective maximum
 		pc := eng.PhiEdges(f, "period", func(v ssa.Value) bool { return strings.HasPrefix(eng.Expr(v), "φmaxTTL") })
 		if len(pc) == 0 {
@@ -209,11 +188,19 @@ func runC05(c *eng.Ctx, thorough bool) {
 		backend := instrsOf(eng.Calls(f, `vault\.\(\*ExpirationManager\)\.renew(Auth)?Entry$`))
 		if c.Floor(f, "backend renew call", len(backend), 1) {
 			g := eng.Guard{Desc: "nil-error edge of leaseEntry.renewable"}
-			for _, r := range eng.Calls(f, `vault\.\(\*leaseEntry\)\.renewable$`) {
+			// the call is selected by its resolved callee: written le.renewable()
+			// or through the method value (check := le.renewable; check())
+			gate, viaValue := c05CallsOf(f, c.P.Func("vault.(*leaseEntry).renewable"))
+			for _, r := range gate {
 				g.Edges = append(g.Edges, eng.CallOKEdges(r)...)
 				g.Pass = append(g.Pass, r)
 			}
-			c.Cut(f, "backend renew", backend, g, nil)
+			if len(gate) == 0 && viaValue {
+				// the method is taken as a value here but no call of that value could be resolved
+				c.Undecided(f, "sink{backend renew} guard{"+g.Desc+"}", backend[0].Pos(), "leaseEntry.renewable is used as a function value in this function and no call of it could be resolved: the rule cannot be evaluated")
+			} else {
+				c.Cut(f, "backend renew", backend, g, nil)
+			}
 			c.Cut(f, "backend renew", backend, eng.GCallOK(f, `vault\.\(\*ExpirationManager\)\.loadEntry$`), nil)
 		}
 		// persisted => tracked (C05.4) for the renew functions
@@ -593,4 +580,266 @@ func timeLeaves(v ssa.Value) (leaves []ssa.Value, nowEdges []eng.Edge) {
 	}
 	leaves = walk(v)
 	return leaves, nowEdges
+}
+
+// c05HardStopTail: the tail of CalculateTTL — (a) when the hard stop has
+// passed (remaining time <= 0) no TTL is granted, (b) the TTL is capped to the
+// remaining time, behind the comparison, and whenever a hard stop exists success
+// needs the comparison to have been made.
+//
+// Each of the two tests is looked for in CalculateTTL itself; when it is not
+// there, in the functions of the same package CalculateTTL calls directly (the
+// tail extracted into a helper). A helper is followed only when exactly one
+// direct call carries the test, it reports through a trailing error result and
+// returns the capped value as result 0; the rule is then evaluated inside the
+// helper, plus the linkage in CalculateTTL (the helper's failure never reaches a
+// success return; every success with a hard stop crosses the call; the helper's
+// result 0 is what CalculateTTL returns). A test that is in neither place is
+// reported as undecided (removed, or moved out of the rule's sight).
+func c05HardStopTail(c *eng.Ctx, f *ssa.Function, succ []ssa.Instruction) {
+	const pastPat = `^0 < time\.\(Time\)\.Sub\(\)$`
+	const cmpPat = `time\.\(Time\)\.Sub\(\) - .* < 0$`
+	const zeroPat = `^time\.\(Time\)\.IsZero\(\)$`
+	isSub := func(v ssa.Value) bool { return strings.Contains(eng.Expr(v), "time.(Time).Sub()") }
+
+	// ---- (a) past the hard stop => error
+	c.Clause("R4", "C05.1")
+	site := "past the hard stop"
+	hasPast := func(fn *ssa.Function) bool { return len(eng.CondEdges(fn, pastPat, false)) > 0 }
+	switch host, call, n := c05TailHost(f, hasPast); {
+	case host == f:
+		past := eng.CondEdges(f, pastPat, false)
+		if h := eng.Reach(eng.Query{Fn: f, StartEdges: past, Target: eng.IsTarget(succ)}); h != nil {
+			c.Violation(f, site, h.Instr.Pos(), "a TTL can still be granted although the hard stop has passed", h.Witness)
+		} else {
+			c.OK(f, site, past[0].From.Instrs[len(past[0].From.Instrs)-1].Pos(), "maxValidTTL <= 0 returns an error")
+		}
+	case host == nil:
+		c.Undecided(f, site, f.Pos(), fmt.Sprintf("the test whether the hard stop has passed (remaining time <= 0) is neither in CalculateTTL nor in exactly one function of its package that it calls directly (%d candidate calls): removed, or moved? the rule cannot be evaluated", n))
+	default:
+		hn := eng.FuncName(host)
+		errIdx, ok := c05TrailingErr(host)
+		if !ok {
+			c.Undecided(f, site, call.Pos(), "the test whether the hard stop has passed moved into "+hn+", which has no trailing error result: the rule cannot be evaluated")
+			break
+		}
+		hsucc := eng.SuccessReturns(host, errIdx)
+		past := eng.CondEdges(host, pastPat, false)
+		fail := eng.CallFailEdges(call)
+		if h := eng.Reach(eng.Query{Fn: host, StartEdges: past, Target: eng.IsTarget(hsucc)}); h != nil {
+			c.Violation(f, site, h.Instr.Pos(), hn+" (called by CalculateTTL) can return without an error although the hard stop has passed", h.Witness)
+		} else if len(fail) == 0 {
+			c.Violation(f, site, call.Pos(), "the error with which "+hn+" reports that the hard stop has passed is not tested in CalculateTTL", nil)
+		} else if h := eng.Reach(eng.Query{Fn: f, StartEdges: fail, Target: eng.IsTarget(succ)}); h != nil {
+			c.Violation(f, site, h.Instr.Pos(), "a TTL can still be granted after "+hn+" reported that the hard stop has passed", h.Witness)
+		} else {
+			c.OK(f, site, call.Pos(), "maxValidTTL <= 0 returns an error from "+hn+", and that error never reaches a success return of CalculateTTL")
+		}
+	}
+
+	// ---- (b) cap to the remaining time
+	c.Clause("R2", "C05.1")
+	site = "cap to the remaining time"
+	hasCap := func(fn *ssa.Function) bool {
+		if fn == f {
+			return len(eng.PhiEdges(f, "ttl", isSub)) > 0
+		}
+		return len(c05SubPhiEdges(fn, isSub)) > 0
+	}
+	switch host, call, n := c05TailHost(f, hasCap); {
+	case host == f:
+		capped := eng.PhiEdges(f, "ttl", isSub)
+		c.CutEdges(f, "ttl = maxValidTTL", capped, eng.G(f, cmpPat, true))
+		// when a hard stop exists, success needs the comparison to have been made
+		cmp := eng.EdgeIfs(eng.CondEdges(f, cmpPat, true))
+		zero := eng.CondEdges(f, zeroPat, true)
+		if h := eng.Reach(eng.Query{Fn: f, Barriers: cmp, Blocked: zero, Target: eng.IsTarget(succ)}); h != nil {
+			c.Violation(f, "TTL compared with the remaining time whenever a hard stop exists", h.Instr.Pos(), "success without comparing the TTL with the remaining time", h.Witness)
+		} else {
+			c.OK(f, "TTL compared with the remaining time whenever a hard stop exists", f.Pos(), "success crosses maxValidTime.IsZero() or the remaining-time comparison")
+		}
+	case host == nil:
+		c.Undecided(f, site, f.Pos(), fmt.Sprintf("the assignment of the remaining time to the TTL is neither in CalculateTTL nor in exactly one function of its package that it calls directly (%d candidate calls): removed, or moved? the rule cannot be evaluated", n))
+	default:
+		hn := eng.FuncName(host)
+		errIdx, ok := c05TrailingErr(host)
+		if !ok {
+			c.Undecided(f, site, call.Pos(), "the cap to the remaining time moved into "+hn+", which has no trailing error result: the rule cannot be evaluated")
+			break
+		}
+		hsucc := eng.SuccessReturns(host, errIdx)
+		// the capped phi is what the helper returns as result 0 ...
+		capPhis := map[ssa.Value]bool{}
+		for _, r := range hsucc {
+			vals, _, _ := eng.ReturnVals(r.(*ssa.Return), 0)
+			for _, v := range vals {
+				for _, l := range c05PhisOf(v) {
+					if len(c05PhiInEdges(l, isSub)) > 0 {
+						capPhis[l] = true
+					}
+				}
+			}
+		}
+		// ... and the helper's result 0 is among the values CalculateTTL returns
+		res0 := eng.ResultValue(call, 0)
+		linked := false
+		for _, r := range succ {
+			vals, _, _ := eng.ReturnVals(r.(*ssa.Return), 0)
+			for _, v := range vals {
+				if v == res0 {
+					linked = true
+				}
+				for _, l := range c05PhisOf(v) {
+					for _, e := range l.Edges {
+						if e == res0 {
+							linked = true
+						}
+					}
+				}
+			}
+		}
+		if len(capPhis) == 0 || res0 == nil || !linked {
+			c.Undecided(f, site, call.Pos(), "the cap to the remaining time moved into "+hn+", but the capped value is not visibly its result 0 returned by CalculateTTL: the rule cannot be evaluated")
+			break
+		}
+		var capped []eng.Edge
+		for p := range capPhis {
+			capped = append(capped, c05PhiInEdges(p.(*ssa.Phi), isSub)...)
+		}
+		c.CutEdges(host, "ttl = maxValidTTL", capped, eng.G(host, cmpPat, true))
+		cmp := eng.EdgeIfs(eng.CondEdges(host, cmpPat, true))
+		site2 := "TTL compared with the remaining time whenever a hard stop exists"
+		if h := eng.Reach(eng.Query{Fn: host, Barriers: cmp, Blocked: eng.CondEdges(host, zeroPat, true), Target: eng.IsTarget(hsucc)}); h != nil {
+			c.Violation(f, site2, h.Instr.Pos(), hn+" (called by CalculateTTL) can succeed without comparing the TTL with the remaining time", h.Witness)
+		} else if h := eng.Reach(eng.Query{Fn: f, Barriers: []ssa.Instruction{call}, Blocked: eng.CondEdges(f, zeroPat, true), Target: eng.IsTarget(succ)}); h != nil {
+			c.Violation(f, site2, h.Instr.Pos(), "success without passing "+hn+", which compares the TTL with the remaining time", h.Witness)
+		} else {
+			c.OK(f, site2, call.Pos(), "success crosses maxValidTime.IsZero() or the call of "+hn+", whose success crosses the remaining-time comparison")
+		}
+	}
+}
+
+// c05TailHost: f when has(f); otherwise the one function of f's package that f
+// calls directly (plain call, exactly one call site among all candidates) for
+// which has() holds. n is the number of candidate call sites when none or
+// several were found.
+func c05TailHost(f *ssa.Function, has func(*ssa.Function) bool) (host *ssa.Function, call ssa.CallInstruction, n int) {
+	if has(f) {
+		return f, nil, 0
+	}
+	for _, b := range f.Blocks {
+		for _, in := range b.Instrs {
+			cl, ok := in.(*ssa.Call)
+			if !ok {
+				continue
+			}
+			g := cl.Call.StaticCallee()
+			if g == nil || g == f || g.Pkg == nil || g.Pkg != f.Pkg || len(g.Blocks) == 0 || !has(g) {
+				continue
+			}
+			n++
+			host, call = g, cl
+		}
+	}
+	if n != 1 {
+		return nil, nil, n
+	}
+	return host, call, 1
+}
+
+// c05TrailingErr: index of fn's last result when it is the error type.
+func c05TrailingErr(fn *ssa.Function) (int, bool) {
+	res := fn.Signature.Results()
+	if res.Len() == 0 {
+		return 0, false
+	}
+	if !types.Identical(res.At(res.Len()-1).Type(), types.Universe.Lookup("error").Type()) {
+		return 0, false
+	}
+	return res.Len() - 1, true
+}
+
+// c05PhisOf: v when it is a phi, and the phis merged into it.
+func c05PhisOf(v ssa.Value) []*ssa.Phi {
+	var out []*ssa.Phi
+	seen := map[*ssa.Phi]bool{}
+	var walk func(v ssa.Value)
+	walk = func(v ssa.Value) {
+		p, ok := v.(*ssa.Phi)
+		if !ok || seen[p] {
+			return
+		}
+		seen[p] = true
+		out = append(out, p)
+		for _, e := range p.Edges {
+			walk(e)
+		}
+	}
+	walk(v)
+	return out
+}
+
+// c05PhiInEdges: the CFG edges through which a value satisfying pred flows
+// into phi.
+func c05PhiInEdges(phi *ssa.Phi, pred func(ssa.Value) bool) []eng.Edge {
+	var out []eng.Edge
+	b := phi.Block()
+	for i, e := range phi.Edges {
+		if _, isPhi := e.(*ssa.Phi); isPhi || !pred(e) {
+			continue
+		}
+		pb := b.Preds[i]
+		for si, s := range pb.Succs {
+			if s == b {
+				out = append(out, eng.Edge{From: pb, Succ: si})
+			}
+		}
+	}
+	return out
+}
+
+// c05SubPhiEdges: c05PhiInEdges over every phi of fn.
+func c05SubPhiEdges(fn *ssa.Function, pred func(ssa.Value) bool) []eng.Edge {
+	var out []eng.Edge
+	for _, b := range fn.Blocks {
+		for _, in := range b.Instrs {
+			phi, ok := in.(*ssa.Phi)
+			if !ok {
+				break
+			}
+			out = append(out, c05PhiInEdges(phi, pred)...)
+		}
+	}
+	return out
+}
+
+// c05CallsOf: the calls in fn (closures not included) whose resolved callee is
+// target — written directly, or through a method value bound in fn
+// (v := x.m; v()), which the SSA form calls as a closure over the synthetic
+// bound-method wrapper of m. valueTaken: the method is taken as a value
+// somewhere in fn (whether or not a call of it could be resolved).
+func c05CallsOf(fn, target *ssa.Function) (calls []ssa.CallInstruction, valueTaken bool) {
+	if target == nil {
+		return nil, false
+	}
+	wraps := func(g *ssa.Function) bool {
+		return g != nil && g.Synthetic != "" && g.Object() != nil && g.Object() == target.Object()
+	}
+	for _, b := range fn.Blocks {
+		for _, in := range b.Instrs {
+			if mc, ok := in.(*ssa.MakeClosure); ok {
+				if g, ok := mc.Fn.(*ssa.Function); ok && wraps(g) {
+					valueTaken = true
+				}
+			}
+			ci, ok := in.(ssa.CallInstruction)
+			if !ok {
+				continue
+			}
+			if g := ci.Common().StaticCallee(); g == target || (g != nil && g.Origin() == target) || wraps(g) {
+				calls = append(calls, ci)
+			}
+		}
+	}
+	return calls, valueTaken
 }
